@@ -156,6 +156,8 @@ inductive Call (T : Type) where
 `process(dt, …, control)`, so two ticks with different controls issue different calls -/
 def traceFilter (T : Type) (ctl : Nat := 0) : Filter T (List (Call T)) Nat where
   process dt s := s ++ [.proc dt ctl]
-  sensor id s := s ++ [.sens id]
+  -- readings numbered 100 and up stand for readings the filter REJECTS (innovation filtering): the update hands back the very
+  -- state it was given; the runtime must still hold that state at the reading's timestamp
+  sensor id s := if id < 100 then s ++ [.sens id] else s
 
 end FormakVerif
